@@ -53,6 +53,9 @@ func verif_assert(b bool) {
 }
 
 func verif_assume(b bool) {}
+
+// verif_rangeidx stands for the number of completed iterations of the enclosing range loop (contracts only).
+func verif_rangeidx() int { return 0 }
 EOV
 } > $D/verif_spec.go
 { echo "$HDR"; echo "package $P"; echo; echo "// Machine-checked contracts for /verif (comment-only; see /verif/DESIGN.md §2.2)."; } > $D/verif_contracts.go
